@@ -113,7 +113,15 @@ def runSubLine (st : St) (r : Report) (sec : Nat) (l : Line) : St × Report := I
       let adds := (log.drop n).filterMap fun | .add k v => some (k, v) | _ => none
       let rems := (log.drop n).filterMap fun | .del k => some k | _ => none
       pure (batch ++ [.reload kvs adds rems])
-    | "reload" :: ts | "reloadc" :: ts | "connreload" :: ts => do
+    | "reloadgap" :: ts => do
+      -- the snapshot is loaded, then the events of the gap are replayed by the watch that starts at rev + 1
+      let kvs ← parsePairs (ts.takeWhile (· ≠ "/"))
+      let gap ← ((ts.dropWhile (· ≠ "/")).drop 1).mapM parseBatchTok
+      let pre := log.take (log.length - gap.length)
+      let adds := pre.filterMap fun | .add k v => some (k, v) | _ => none
+      let rems := pre.filterMap fun | .del k => some k | _ => none
+      pure (Ev.reload kvs adds rems :: gap)
+    | "reloadg" :: _ :: ts | "reload" :: ts | "reloadc" :: ts | "connreload" :: ts => do
       let kvs ← parsePairs ts
       -- the orders Go ranged over its maps in are read off the listener log: adds, then removes
       let adds := log.filterMap fun | .add k v => some (k, v) | _ => none
@@ -152,6 +160,11 @@ def runSubLine (st : St) (r : Report) (sec : Nat) (l : Line) : St × Report := I
   if (l.op.head? == some "batch") then r := r.addCover "batch"
   if (l.op.head? == some "connreload") then r := r.addCover "reload-after-connection-state-change"
   if (l.op.head? == some "joinmid") then r := r.addCover "joinmid"
+  if (l.op.head? == some "reloadg") then r := r.addCover "load-retries-after-a-failed-Get"
+  if (l.op.head? == some "reloadgap") then
+    r := r.addCover "events-between-snapshot-and-new-watch"
+    if (evs.drop 1).any (fun ev => match ev with | .del k => ((stepValues st.cl.values (evs.headD (.del 0))).get k).isSome | _ => true) then
+      r := r.addCover "gap-event-changes-the-registry"
   if (l.op.head? == some "reloadmid") then r := r.addCover "reload-while-a-response-is-handled"
   -- the listener events must be exactly what handleWatchEvents / handleChanges emit, in that order
   let expectLog := evs.flatMap emit
